@@ -93,8 +93,17 @@ func allInstrs(fn *ssa.Function, f func(in ssa.Instruction)) {
 	}
 }
 
-// calls returns the call instructions (call, defer, go) in fn whose callee matches one of pats.
+// calls returns the call instructions (call, defer, go) in fn whose callee matches one of pats (fn only; rules that must
+// survive an extract-helper refactoring use callsX).
 func calls(fn *ssa.Function, pats ...string) []ssa.CallInstruction {
+	if fn != nil && curAnchors[fn] {
+		return callsX(fn, pats...)
+	}
+	return callsLocal(fn, pats...)
+}
+
+// callsLocal: the matching call instructions of fn itself.
+func callsLocal(fn *ssa.Function, pats ...string) []ssa.CallInstruction {
 	var out []ssa.CallInstruction
 	if fn == nil {
 		return nil
@@ -106,6 +115,128 @@ func calls(fn *ssa.Function, pats ...string) []ssa.CallInstruction {
 			}
 		}
 	})
+	return out
+}
+
+// ---------- same-package helpers: anchors and values seen through extracted functions ----------
+
+var staticSites = map[*ssa.Function][]*ssa.Call{}
+
+func registerCallSites(fns []*ssa.Function) {
+	for _, fn := range fns {
+		allInstrs(fn, func(in ssa.Instruction) {
+			if call, ok := in.(*ssa.Call); ok {
+				if g := call.Call.StaticCallee(); g != nil && g.Blocks != nil {
+					staticSites[g] = append(staticSites[g], call)
+				}
+			}
+		})
+	}
+}
+
+// helperFns: the same-package functions with a body that fn calls statically (plain calls), transitively up to depth.
+func helperFns(fn *ssa.Function, depth int) []*ssa.Function {
+	var out []*ssa.Function
+	seen := map[*ssa.Function]bool{fn: true}
+	var rec func(f *ssa.Function, d int)
+	rec = func(f *ssa.Function, d int) {
+		if d == 0 {
+			return
+		}
+		allInstrs(f, func(in ssa.Instruction) {
+			if g := helperOf(in, nil); g != nil && !seen[g] {
+				seen[g] = true
+				out = append(out, g)
+				rec(g, d-1)
+			}
+		})
+	}
+	rec(fn, depth)
+	return out
+}
+
+// callsX: like calls, but when fn itself has no matching call the same-package helpers it calls (depth <= 2) are searched:
+// an anchor that was moved into an extracted helper is still found (the reachability primitives follow the helper call).
+func callsX(fn *ssa.Function, pats ...string) []ssa.CallInstruction {
+	out := callsLocal(fn, pats...)
+	if len(out) > 0 || fn == nil {
+		return out
+	}
+	for _, g := range helperFns(fn, 2) {
+		// a helper that is itself one of the searched callees is an anchor, not a container
+		if matchAny(fnNameForMatch(g), pats) {
+			continue
+		}
+		out = append(out, callsLocal(g, pats...)...)
+	}
+	return out
+}
+
+// callsAllX: matching calls in fn and in its same-package helpers (depth <= 2)
+func callsAllX(fn *ssa.Function, pats ...string) []ssa.CallInstruction {
+	out := callsLocal(fn, pats...)
+	if fn == nil {
+		return out
+	}
+	for _, g := range helperFns(fn, 2) {
+		if matchAny(fnNameForMatch(g), pats) {
+			continue
+		}
+		out = append(out, callsLocal(g, pats...)...)
+	}
+	return out
+}
+
+func fnNameForMatch(g *ssa.Function) string {
+	if g.Object() != nil {
+		if tf, ok := g.Object().(*types.Func); ok {
+			return short(tf.FullName())
+		}
+	}
+	return fnName(g)
+}
+
+// allInstrsX iterates over fn and its same-package helpers (depth <= 2)
+func allInstrsX(fn *ssa.Function, f func(in ssa.Instruction)) {
+	allInstrs(fn, f)
+	for _, g := range helperFns(fn, 2) {
+		allInstrs(g, f)
+	}
+}
+
+// actualsOf: the arguments bound to parameter p at the static call sites of its function (nil if p's function has none)
+func actualsOf(p *ssa.Parameter) []ssa.Value {
+	fn := p.Parent()
+	idx := -1
+	for i, q := range fn.Params {
+		if q == p {
+			idx = i
+		}
+	}
+	if idx < 0 {
+		return nil
+	}
+	var out []ssa.Value
+	for _, site := range staticSites[fn] {
+		if idx < len(site.Call.Args) {
+			out = append(out, site.Call.Args[idx])
+		}
+	}
+	return out
+}
+
+// helperResults: for a plain call of a same-package helper, the values its returns put into result slot i
+func helperResults(call *ssa.Call, i int) []ssa.Value {
+	g := helperOf(call, nil)
+	if g == nil {
+		return nil
+	}
+	var out []ssa.Value
+	for _, ret := range returns(g) {
+		if i < len(ret.Results) {
+			out = append(out, retVal(ret, i))
+		}
+	}
 	return out
 }
 
@@ -169,7 +300,89 @@ func (c *cut) edge(es ...edge) *cut {
 
 type reachSet struct {
 	instrs map[ssa.Instruction]bool
-	blocks map[*ssa.BasicBlock]bool // blocks entered at their top
+	blocks map[*ssa.BasicBlock]bool // blocks entered at their top (any context)
+	seen   map[rkey]bool
+}
+
+// rctx: call-string context of the walk (same-package helpers are entered and left at their own call site only)
+type rctx struct {
+	site  *ssa.Call
+	up    *rctx
+	depth int
+}
+
+type rkey struct {
+	b     *ssa.BasicBlock
+	i     int
+	ctx   *rctx
+	facts *retFacts
+}
+
+type rwork struct {
+	b     *ssa.BasicBlock
+	i     int
+	ctx   *rctx
+	facts *retFacts // what is known about the results of the helper call this walk just returned from (this block only)
+}
+
+// retFacts: nil-ness of the results of one helper call, as established by the Return the walk came back through
+type retFacts struct {
+	call *ssa.Call
+	sig  string // per result: 'n' nil, 'x' non-nil, '?' unknown
+}
+
+var retFactsIntern = map[[2]interface{}]*retFacts{}
+
+func internFacts(call *ssa.Call, sig string) *retFacts {
+	if !strings.ContainsAny(sig, "nx") {
+		return nil
+	}
+	k := [2]interface{}{call, sig}
+	if f := retFactsIntern[k]; f != nil {
+		return f
+	}
+	f := &retFacts{call, sig}
+	retFactsIntern[k] = f
+	return f
+}
+
+// nilnessOf: 'n' for the nil constant, 'x' for values that cannot be nil (fresh errors, allocations, addresses), '?' otherwise
+func nilnessOf(v ssa.Value) byte {
+	if isNilConst(v) {
+		return 'n'
+	}
+	switch x := v.(type) {
+	case *ssa.Alloc, *ssa.MakeInterface, *ssa.MakeMap, *ssa.MakeSlice, *ssa.MakeClosure, *ssa.FieldAddr, *ssa.IndexAddr:
+		return 'x'
+	case *ssa.Call:
+		switch calleeName(x) {
+		case "fmt.Errorf", "errors.New":
+			return 'x'
+		}
+	}
+	return '?'
+}
+
+const maxInlineDepth = 3
+
+var rctxIntern = map[[2]interface{}]*rctx{}
+
+func pushCtx(up *rctx, site *ssa.Call) *rctx {
+	k := [2]interface{}{up, site}
+	if x := rctxIntern[k]; x != nil {
+		return x
+	}
+	d := 1
+	if up != nil {
+		d = up.depth + 1
+	}
+	x := &rctx{site: site, up: up, depth: d}
+	rctxIntern[k] = x
+	return x
+}
+
+func newReachSet() *reachSet {
+	return &reachSet{instrs: map[ssa.Instruction]bool{}, blocks: map[*ssa.BasicBlock]bool{}, seen: map[rkey]bool{}}
 }
 
 func (r *reachSet) has(in ssa.Instruction) bool { return r.instrs[in] }
@@ -182,61 +395,334 @@ func (r *reachSet) anyCall(ins []ssa.CallInstruction) ssa.CallInstruction {
 	return nil
 }
 
-// walk executes from instruction index i of block b.
-func reachWalk(r *reachSet, b *ssa.BasicBlock, i int, c *cut, work *[]*ssa.BasicBlock) {
+// helperOf: the same-package function with a body that this plain call enters (nil for external, dynamic, go/defer calls
+// and for recursion within the current context)
+func helperOf(in ssa.Instruction, ctx *rctx) *ssa.Function {
+	call, ok := in.(*ssa.Call)
+	if !ok {
+		return nil
+	}
+	g := call.Call.StaticCallee()
+	if g == nil || g.Blocks == nil || g.Pkg == nil || call.Parent() == nil || call.Parent().Pkg == nil {
+		return nil
+	}
+	host := call.Parent()
+	for host.Parent() != nil {
+		host = host.Parent()
+	}
+	if g.Pkg != host.Pkg || g == call.Parent() {
+		return nil
+	}
+	if ctx != nil && ctx.depth >= maxInlineDepth {
+		return nil
+	}
+	for x := ctx; x != nil; x = x.up {
+		if x.site.Call.StaticCallee() == g {
+			return nil
+		}
+	}
+	return g
+}
+
+// reachWalk executes from instruction index i of block b in context ctx. A call of a same-package helper is followed into the
+// helper; the walk comes back to the instruction after that very call when a return of the helper is reached.
+func reachWalk(r *reachSet, w rwork, c *cut, work *[]rwork) {
+	b, i, ctx := w.b, w.i, w.ctx
 	for ; i < len(b.Instrs); i++ {
 		in := b.Instrs[i]
 		if c != nil && c.avoid[in] {
 			return
 		}
 		r.instrs[in] = true
+		if g := helperOf(in, ctx); g != nil {
+			nw := rwork{g.Blocks[0], 0, pushCtx(ctx, in.(*ssa.Call)), nil}
+			k := rkey{nw.b, 0, nw.ctx, nil}
+			if !r.seen[k] {
+				r.seen[k] = true
+				r.blocks[nw.b] = true
+				*work = append(*work, nw)
+			}
+			return // continues at i+1 when the helper returns
+		}
+		if _, isRet := in.(*ssa.Return); isRet && ctx != nil {
+			site := ctx.site
+			sb := site.Block()
+			idx := 0
+			for j, x := range sb.Instrs {
+				if x == ssa.Instruction(site) {
+					idx = j + 1
+				}
+			}
+			sig := make([]byte, len(in.(*ssa.Return).Results))
+			for j := range sig {
+				sig[j] = nilnessOf(retVal(in.(*ssa.Return), j))
+			}
+			facts := internFacts(site, string(sig))
+			k := rkey{sb, idx, ctx.up, facts}
+			if !r.seen[k] {
+				r.seen[k] = true
+				*work = append(*work, rwork{sb, idx, ctx.up, facts})
+			}
+			return
+		}
+	}
+	only := -1
+	if w.facts != nil {
+		only = factsSucc(b, w.facts)
 	}
 	for si, s := range b.Succs {
 		if c != nil && c.edges[edge{b, si}] {
 			continue
 		}
-		if !r.blocks[s] {
+		if only >= 0 && si != only {
+			continue
+		}
+		k := rkey{s, 0, ctx, nil}
+		if !r.seen[k] {
+			r.seen[k] = true
 			r.blocks[s] = true
-			*work = append(*work, s)
+			*work = append(*work, rwork{s, 0, ctx, nil})
 		}
 	}
 }
 
-func reachDrain(r *reachSet, c *cut, work []*ssa.BasicBlock) {
+// factsSucc: block b ends in `if <result of the helper call> ==/!= nil`; with the nil-ness established by the helper's
+// return only one successor is possible. -1 when nothing is known.
+func factsSucc(b *ssa.BasicBlock, f *retFacts) int {
+	if len(b.Instrs) == 0 {
+		return -1
+	}
+	iff, ok := b.Instrs[len(b.Instrs)-1].(*ssa.If)
+	if !ok {
+		return -1
+	}
+	bo, ok := iff.Cond.(*ssa.BinOp)
+	if !ok || (bo.Op != token.EQL && bo.Op != token.NEQ) {
+		return -1
+	}
+	var x ssa.Value
+	if isNilConst(bo.Y) {
+		x = bo.X
+	} else if isNilConst(bo.X) {
+		x = bo.Y
+	} else {
+		return -1
+	}
+	idx := -1
+	if ex, ok := x.(*ssa.Extract); ok && ex.Tuple == ssa.Value(f.call) {
+		idx = ex.Index
+	} else if x == ssa.Value(f.call) {
+		idx = 0
+	}
+	if idx < 0 || idx >= len(f.sig) || f.sig[idx] == '?' {
+		return -1
+	}
+	isNil := f.sig[idx] == 'n'
+	if (bo.Op == token.EQL) == isNil {
+		return 0
+	}
+	return 1
+}
+
+func reachDrain(r *reachSet, c *cut, work []rwork) {
 	for len(work) > 0 {
-		b := work[len(work)-1]
+		w := work[len(work)-1]
 		work = work[:len(work)-1]
-		reachWalk(r, b, 0, c, &work)
+		reachWalk(r, w, c, &work)
 	}
 }
 
 // reachFromEntry: instructions executable from function entry under the cut.
 func reachFromEntry(fn *ssa.Function, c *cut) *reachSet {
-	r := &reachSet{instrs: map[ssa.Instruction]bool{}, blocks: map[*ssa.BasicBlock]bool{}}
+	r := newReachSet()
 	if len(fn.Blocks) == 0 {
 		return r
 	}
 	r.blocks[fn.Blocks[0]] = true
-	reachDrain(r, c, []*ssa.BasicBlock{fn.Blocks[0]})
+	r.seen[rkey{fn.Blocks[0], 0, nil, nil}] = true
+	reachDrain(r, c, []rwork{{fn.Blocks[0], 0, nil, nil}})
 	return r
 }
 
 // reachAfter: instructions executable strictly after instruction in.
 func (cx *Ctx) reachAfter(in ssa.Instruction, c *cut) *reachSet {
-	r := &reachSet{instrs: map[ssa.Instruction]bool{}, blocks: map[*ssa.BasicBlock]bool{}}
-	var work []*ssa.BasicBlock
-	reachWalk(r, in.Block(), cx.instrIndex(in)+1, c, &work)
+	r := newReachSet()
+	var work []rwork
+	// a call of a helper: "after" begins when the helper has returned; the helper's own instructions are after it too
+	reachWalkFrom(r, in, c, &work)
 	reachDrain(r, c, work)
 	return r
 }
 
+func reachWalkFrom(r *reachSet, in ssa.Instruction, c *cut, work *[]rwork) {
+	b := in.Block()
+	idx := 0
+	for j, x := range b.Instrs {
+		if x == in {
+			idx = j + 1
+		}
+	}
+	reachWalk(r, rwork{b, idx, nil, nil}, c, work)
+}
+
 // reachFromEdge: instructions executable after taking edge e.
 func reachFromEdge(e edge, c *cut) *reachSet {
-	r := &reachSet{instrs: map[ssa.Instruction]bool{}, blocks: map[*ssa.BasicBlock]bool{}}
+	r := newReachSet()
 	s := e.from.Succs[e.succ]
+	// `a || b` / `a && b` evaluated as a value (switch cases, assignments): the join block computes phi [true, b] and
+	// branches on it. Arriving from the edge that carries the constant, only one successor of that branch is possible.
+	path := []*ssa.BasicBlock{e.from}
+	for depth := 0; depth < 6; depth++ {
+		// a block that only jumps on (the body of `x = v; break`): walk through it, remembering the way
+		if len(s.Succs) == 1 && len(s.Instrs) > 0 {
+			if _, isJump := s.Instrs[len(s.Instrs)-1].(*ssa.Jump); isJump && (c == nil || !c.edges[edge{s, 0}]) {
+				stop := false
+				for _, in := range s.Instrs {
+					if c != nil && c.avoid[in] {
+						stop = true
+						break
+					}
+					if helperOf(in, nil) != nil {
+						stop = true // a helper call: leave it to the general walk
+						break
+					}
+				}
+				if !stop && constPhiCandidate(s.Succs[0]) {
+					for _, in := range s.Instrs {
+						r.instrs[in] = true
+					}
+					path = append(path, s)
+					e = edge{s, 0}
+					s = s.Succs[0]
+					continue
+				}
+			}
+		}
+		k, ok := constPhiSucc(path, s)
+		if !ok || (c != nil && c.edges[edge{s, k}]) {
+			break
+		}
+		stop := false
+		for _, in := range s.Instrs {
+			if c != nil && c.avoid[in] {
+				stop = true
+				break
+			}
+			r.instrs[in] = true
+		}
+		if stop {
+			return r
+		}
+		path = append(path, s)
+		e = edge{s, k}
+		s = e.from.Succs[e.succ]
+	}
 	r.blocks[s] = true
-	reachDrain(r, c, []*ssa.BasicBlock{s})
+	r.seen[rkey{s, 0, nil, nil}] = true
+	reachDrain(r, c, []rwork{{s, 0, nil, nil}})
 	return r
+}
+
+// constPhiSucc: block s ends in `if phi` where phi (defined in s) has a boolean constant on the edge from pred; returns
+// the only successor index that can be taken when s is entered from pred.
+// constPhiCandidate: the block merges and branches on the merged value (cheap pre-test for the walk-through above)
+func constPhiCandidate(s *ssa.BasicBlock) bool {
+	if len(s.Instrs) == 0 {
+		return false
+	}
+	_, isIf := s.Instrs[len(s.Instrs)-1].(*ssa.If)
+	_, hasPhi := s.Instrs[0].(*ssa.Phi)
+	return isIf && hasPhi
+}
+
+func constPhiSucc(path []*ssa.BasicBlock, s *ssa.BasicBlock) (int, bool) {
+	pred := path[len(path)-1]
+	if len(s.Instrs) == 0 {
+		return 0, false
+	}
+	iff, ok := s.Instrs[len(s.Instrs)-1].(*ssa.If)
+	if !ok {
+		return 0, false
+	}
+	ph, ok := iff.Cond.(*ssa.Phi)
+	if !ok || ph.Block() != s {
+		// flag carried as a pointer: found := phi [nil (loop exhausted), elem (from the break)]; if found != nil { .. }
+		// Arriving from a predecessor that dereferenced elem (so it is non-nil there) or that carries the nil constant,
+		// only one successor is possible.
+		bo, isBo := iff.Cond.(*ssa.BinOp)
+		if !isBo || (bo.Op != token.EQL && bo.Op != token.NEQ) {
+			return 0, false
+		}
+		var pv ssa.Value
+		if isNilConst(bo.Y) {
+			pv = bo.X
+		} else if isNilConst(bo.X) {
+			pv = bo.Y
+		}
+		pph, isPhi := pv.(*ssa.Phi)
+		if !isPhi || pph.Block() != s {
+			return 0, false
+		}
+		for _, in := range s.Instrs[:len(s.Instrs)-1] {
+			switch in.(type) {
+			case *ssa.Phi, *ssa.DebugRef, *ssa.BinOp:
+			default:
+				return 0, false
+			}
+		}
+		for i, p := range s.Preds {
+			if p != pred {
+				continue
+			}
+			v := pph.Edges[i]
+			isNil, known := false, false
+			if isNilConst(v) {
+				isNil, known = true, true
+			} else {
+				for _, pb := range path {
+					for _, in := range pb.Instrs {
+						switch x := in.(type) {
+						case *ssa.FieldAddr:
+							if x.X == v {
+								known = true
+							}
+						case *ssa.UnOp:
+							if x.Op == token.MUL && x.X == v {
+								known = true
+							}
+						}
+					}
+				}
+			}
+			if !known {
+				return 0, false
+			}
+			if (bo.Op == token.EQL) == isNil {
+				return 0, true
+			}
+			return 1, true
+		}
+		return 0, false
+	}
+	// the block must do nothing but merge and branch
+	for _, in := range s.Instrs[:len(s.Instrs)-1] {
+		if _, isPhi := in.(*ssa.Phi); !isPhi {
+			if _, isDbg := in.(*ssa.DebugRef); !isDbg {
+				return 0, false
+			}
+		}
+	}
+	for i, p := range s.Preds {
+		if p == pred {
+			if b, isC := constBoolVal(ph.Edges[i]); isC {
+				if b {
+					return 0, true
+				}
+				return 1, true
+			}
+		}
+	}
+	return 0, false
 }
 
 // returns lists the Return instructions of fn.
@@ -500,9 +986,47 @@ func guardEdges(fn *ssa.Function, p condPred) []edge {
 		if iff, ok := in.(*ssa.If); ok {
 			if m, s := p(iff.Cond); m {
 				out = append(out, edge{iff.Block(), s})
+				return
+			}
+			// the condition is `a || b` / `a && b` computed as a value: phi [true.., b] (resp. [false.., b]) in this block.
+			// If the predicate holds for b on its true (false) edge, the true (false) edge of this branch is where it holds
+			// (over-approximated by the other disjuncts / exactly the edge for the conjunction's last operand).
+			if ph, isPhi := iff.Cond.(*ssa.Phi); isPhi && ph.Block() == iff.Block() {
+				for i, e := range ph.Edges {
+					if _, isC := e.(*ssa.Const); isC {
+						continue
+					}
+					m, s := p(e)
+					if !m {
+						continue
+					}
+					okForm := true
+					for j, o := range ph.Edges {
+						if j == i {
+							continue
+						}
+						b, isC := constBoolVal(o)
+						if !isC || (s == 0 && !b) || (s == 1 && b) {
+							okForm = false
+						}
+					}
+					if okForm {
+						out = append(out, edge{iff.Block(), s})
+					}
+				}
 			}
 		}
 	})
+	return out
+}
+
+// guardEdgesX: guard edges in fn and in the same-package helpers it calls (the reachability primitives follow those calls and
+// correlate the helper's return with the caller's test of the returned error)
+func guardEdgesX(fn *ssa.Function, p condPred) []edge {
+	out := guardEdges(fn, p)
+	for _, g := range helperFns(fn, 2) {
+		out = append(out, guardEdges(g, p)...)
+	}
 	return out
 }
 
